@@ -9,6 +9,12 @@ structure DState where
   /-- real-loops mode of the harness: which goroutine's batches land on which line is a race there, so the
   bookkeeping part of a line carries no batches and no queue length -/
   real : Bool := false
+  /-- tracker stream: capacity of the (real) kernel map of this history, if one is used -/
+  cap : Option Nat := none
+  /-- tracker stream: the order in which the next update batch was sent (observed) -/
+  order : List Ip := []
+  /-- schedule stream: the transition system and which goroutines are blocked in `t.mu.Lock()` -/
+  sys : Sys := Sys.init [[], [], []]
 deriving Inhabited
 
 def ownerOfTok (s : String) : String := if s = "~" then "" else s
@@ -115,9 +121,24 @@ def clearLogC (σ : CState) : CState := { σ with tk := clearLogT σ.tk }
 same with the virtual clock), so that no two LRU stamps are equal and runs are reproducible. -/
 def tick (σ : CState) : CState := { clearLogC σ with now := σ.now + 1 }
 
-def runC (d : DState) (op : COp) (extra : String := "") : DState × String :=
-  let σ := cstep (tick d.cs) op
+def runC (d : DState) (op : COp) (extra : String := "") (plan : Plan := Plan.ok) : DState × String :=
+  let σ := cstepP (tick d.cs) plan op
   ({ d with cs := σ }, cLine σ extra d.real)
+
+/-- leading `!uf:<owner>` / `!df:<owner>` tokens: the batch-syscall behaviour observed for that owner's tracker
+call inside the operation that follows. -/
+def splitPlan (ws : List String) : List (Owner × Outcome) × List String :=
+  match ws with
+  | w :: rest =>
+    if w.startsWith "!uf:" then let r := splitPlan rest; ((String.ofList (w.toList.drop 4), Outcome.updFail) :: r.1, r.2)
+    else if w.startsWith "!df:" then let r := splitPlan rest; ((String.ofList (w.toList.drop 4), Outcome.delFail) :: r.1, r.2)
+    else ([], ws)
+  | [] => ([], [])
+
+def planOf (l : List (Owner × Outcome)) : Plan := fun o =>
+  match alLookup o l with
+  | some oc => oc
+  | none => .ok
 
 def parseOutcome? : String → Option Outcome
   | "ok" => some .ok
@@ -134,20 +155,75 @@ def parseAssign? (toks : List String) : Option (List (String × Bitmap)) :=
     | [k, b] => (parseBits? b).map fun bm => (k, bm)
     | _ => none
 
+/-! ### schedule stream: the transition system of `Model.lean` driven to the points where the real goroutines
+park (the harness's batch observers are the yield points: a goroutine parks on entry to `BpfMapBatchUpdate` /
+`BpfMapBatchDelete`, i.e. before that batch is written) -/
+
+def holderEmit (σ : Sys) (h : Hold) : Emit := emitFor σ.t h.o h.s (affected σ.t h.o h.s)
+
+/-- run the holder forward until it parks before a non-empty batch or releases the mutex. -/
+def advance (σ : Sys) : Nat → Sys
+  | 0 => σ
+  | fuel + 1 =>
+    match σ.lock with
+    | none => σ
+    | some h =>
+      let em := holderEmit σ h
+      match h.stage with
+      | .locked => if em.ups ≠ [] then σ else advance (tstep σ h.tid) fuel
+      | .updSent => if em.dels ≠ [] then σ else advance (tstep σ h.tid) fuel
+      | .delSent => advance (tstep σ h.tid) fuel
+
+/-- after a release: a goroutine that was blocked in `Lock()` (at most one, the harness guarantees it) takes the
+mutex and runs to its first park point. -/
+def wakeWaiter (σ : Sys) : Nat → Sys
+  | 0 => σ
+  | fuel + 1 =>
+    match σ.lock with
+    | some _ => σ
+    | none =>
+      match (List.range σ.todo.length).find? (fun i => !(σ.todo.getD i []).isEmpty) with
+      | none => σ
+      | some i => wakeWaiter (advance (tstep σ i) 4) fuel
+
+def threadStr (σ : Sys) (i : Nat) : String :=
+  match σ.lock with
+  | some h =>
+    if h.tid = i then (match h.stage with | .locked => "pu" | .updSent => "pd" | .delSent => "pd")
+    else if (σ.todo.getD i []).isEmpty then "idle" else "blocked"
+  | none => if (σ.todo.getD i []).isEmpty then "idle" else "blocked"
+
+def sLine (σ : Sys) : String :=
+  line ("T=" ++ ",".intercalate ((List.range σ.todo.length).map (threadStr σ)) ++ " " ++ tableFp σ.K) ""
+
 def handle (d : DState) (line' : String) : DState × String :=
-  match words line' with
-  | ["tnew"] => ({ d with tk := TK.empty }, line "ok" "")
+  let (planL, ws) := splitPlan (words line')
+  let plan := planOf planL
+  match ws with
+  | ["tnew"] => ({ d with tk := TK.empty, cap := none, order := [] }, line "ok" "")
+  | ["tnew", c] =>
+    match c.toNat? with
+    | some n => ({ d with tk := TK.empty, cap := some n, order := [] }, line "ok" "")
+    | none => (d, "bad-op")
+  | "order" :: ks =>
+    match ks.mapM hexToNat? with
+    | some l => ({ d with order := l }, line "ok" "")
+    | none => (d, "bad-op")
   | "tupd" :: oc :: o :: len :: bm :: rest =>
     match parseOutcome? oc, len.toNat?, parseBits? bm, rest.mapM parseAns? with
     | some oc, some n, some b, some ans =>
-      let r := batchUpdate (clearLogT d.tk) (some ⟨ownerOfTok o, n, b, ans⟩) oc
-      ({ d with tk := r.1 }, tLine r)
+      let r := match d.cap with
+        | none => batchUpdate (clearLogT d.tk) (some ⟨ownerOfTok o, n, b, ans⟩) oc
+        | some cap => batchUpdateC (clearLogT d.tk) cap d.order ⟨ownerOfTok o, n, b, ans⟩ oc
+      ({ d with tk := r.1, order := [] }, tLine r)
     | _, _, _, _ => (d, "bad-op")
   | ["trm", oc, o] =>
     match parseOutcome? oc with
     | some oc =>
-      let r := batchRemove (clearLogT d.tk) (some ⟨ownerOfTok o, bitmapWords, 0, []⟩) oc
-      ({ d with tk := r.1 }, tLine r)
+      let r := match d.cap with
+        | none => batchRemove (clearLogT d.tk) (some ⟨ownerOfTok o, bitmapWords, 0, []⟩) oc
+        | some cap => batchRemoveC (clearLogT d.tk) cap d.order ⟨ownerOfTok o, bitmapWords, 0, []⟩ oc
+      ({ d with tk := r.1, order := [] }, tLine r)
     | none => (d, "bad-op")
   | ["tnil", which] =>
     let r := if which = "upd" then batchUpdate (clearLogT d.tk) none else batchRemove (clearLogT d.tk) none
@@ -161,6 +237,9 @@ def handle (d : DState) (line' : String) : DState × String :=
   | "tnobpf" :: _ =>
     -- `PeekBpf() == nil`: the call is dropped before the tracker is touched
     (d, tLine (clearLogT d.tk, .ok))
+  | ["tclear"] =>
+    -- `clearReloadDomainRoutingMap` + `domainRouting.reset()` (what every reload path does with map and tracker)
+    ({ d with tk := { d.tk with t := Tracker.empty, K := [], log := [] } }, tLine ({ d.tk with t := Tracker.empty, K := [], log := [] }, .ok))
   | ["tdump"] => (d, line (kernelStr d.tk.K) (trackerStr d.tk.t))
   | ["cnew", en, ttl, mx, real] =>
     match ttl.toNat?, mx.toNat? with
@@ -173,43 +252,67 @@ def handle (d : DState) (line' : String) : DState × String :=
   | "put" :: "1" :: key :: fqdn :: qt :: ttl :: fttl :: bm :: rest =>
     match qt.toNat?, ttl.toNat?, parseBits? bm, rest.mapM parseAns? with
     | some q, some t, some b, some ans =>
-      if fttl = "-" then runC d (.put (ownerOfTok key) fqdn q t none b ans)
+      if fttl = "-" then runC d (.put (ownerOfTok key) fqdn q t none b ans) "" plan
       else match fttl.toNat? with
-        | some f => runC d (.put (ownerOfTok key) fqdn q t (some f) b ans)
+        | some f => runC d (.put (ownerOfTok key) fqdn q t (some f) b ans) "" plan
         | none => (d, "bad-op")
     | _, _, _, _ => (d, "bad-op")
-  | "putf" :: key :: fqdn :: qt :: ttl :: fttl :: bm :: rest =>
-    -- a put whose synchronous publish failed (injected failing update batch)
-    match qt.toNat?, ttl.toNat?, parseBits? bm, rest.mapM parseAns? with
-    | some q, some t, some b, some ans =>
-      let f := if fttl = "-" then none else fttl.toNat?
-      let σ := cstepF (tick d.cs) (.putFail (ownerOfTok key) fqdn q t f b ans)
-      ({ d with cs := σ }, cLine σ "" d.real)
-    | _, _, _, _ => (d, "bad-op")
-  | ["del", key] => runC d (.del key)
+  | ["del", key] => runC d (.del key) "" plan
   | "fam" :: base :: order =>
-    runC d (.fam base order) ("legal=" ++ boolStr (famLegal (tick d.cs) base order) ++ " ")
+    runC d (.fam base order) ("legal=" ++ boolStr (famLegal (tick d.cs) base order) ++ " ") plan
   | ["look", key, ig, ev, q] =>
     let pred := predictLook (tick d.cs) key (ig = "1")
-    runC d (.look key (ev = "1") (q = "1")) ("pred=" ++ boolStr (pred == (decide (ev = "1"), decide (q = "1"))) ++ " ")
+    runC d (.look key (ev = "1") (q = "1")) ("pred=" ++ boolStr (pred == (decide (ev = "1"), decide (q = "1"))) ++ " ") plan
   | ["hot", key, pk, ev, q] =>
     let pred := predictHot (tick d.cs) key (pk = "1")
-    runC d (.hot key (ev = "1") (q = "1")) ("pred=" ++ boolStr (pred == (decide (ev = "1"), decide (q = "1"))) ++ " ")
-  | "jan" :: order => runC d (.jan order) ("legal=" ++ boolStr (janLegal (tick d.cs) order) ++ " ")
+    runC d (.hot key (ev = "1") (q = "1")) ("pred=" ++ boolStr (pred == (decide (ev = "1"), decide (q = "1"))) ++ " ") plan
+  | "jan" :: order => runC d (.jan order) ("legal=" ++ boolStr (janLegal (tick d.cs) order) ++ " ") plan
   | ["sleep", ns] =>
     match ns.toNat? with
     | some n => runC d (.sleep n)
     | none => (d, "bad-op")
-  | ["work"] => runC d .work
+  | ["work"] => runC d .work "" plan
   | ["touch", key] => runC d (.touch key)
   | "reload" :: rest =>
     match parseAssign? rest with
-    | some assign => runC d (.reload assign) ("legal=" ++ boolStr (reloadLegal d.cs assign) ++ " ")
+    | some assign => runC d (.reload assign) ("legal=" ++ boolStr (reloadLegal d.cs assign) ++ " ") plan
+    | none => (d, "bad-op")
+  | "reloadx" :: rest =>
+    -- reload WITHOUT controller reuse: the refresh queue dies with the retired controller; in the model its tasks
+    -- all point at objects of the previous generation, so running the worker drops them one by one
+    match parseAssign? rest with
+    | some assign =>
+      let r := runC d (.reload assign) ("legal=" ++ boolStr (reloadLegal d.cs assign) ++ " ") plan
+      let σ := (List.range r.1.cs.pending.length).foldl (fun σ _ => cstepP σ Plan.ok .work) r.1.cs
+      ({ r.1 with cs := σ }, cLine σ ("legal=" ++ boolStr (reloadLegal d.cs assign) ++ " ") d.real)
     | none => (d, "bad-op")
   | ["cdump"] =>
     (d, line (cacheStr d.cs.cache ++ " " ++ kernelStr d.cs.tk.K)
       ("now=" ++ toString d.cs.now ++ " " ++ stampsStr d.cs.cache ++ " " ++ pendingStr d.cs.pending ++ " " ++
         trackerStr d.cs.tk.t))
+  | ["snew", n] =>
+    match n.toNat? with
+    | some n => let σ := Sys.init (List.replicate n []); ({ d with sys := σ }, sLine σ)
+    | none => (d, "bad-op")
+  | "scall" :: tid :: o :: bm :: rest =>
+    -- goroutine `tid` calls BatchUpdateDomainRouting (bits `rm`: BatchRemoveDomainRouting)
+    match tid.toNat?, (if bm = "rm" then some 0 else parseBits? bm), rest.mapM parseAns? with
+    | some i, some b, some ans =>
+      let snap : Snapshot := if bm = "rm" then Snapshot.empty else ⟨b, ansIps ans⟩
+      let σ0 := d.sys
+      let σ1 : Sys := { σ0 with todo := setNth σ0.todo i ((σ0.todo.getD i []) ++ [(ownerOfTok o, snap)]) }
+      let σ2 := match σ1.lock with
+        | some _ => σ1                       -- blocked in `t.mu.Lock()`
+        | none => advance (tstep σ1 i) 4
+      ({ d with sys := σ2 }, sLine σ2)
+    | _, _, _ => (d, "bad-op")
+  | ["sgo", tid] =>
+    match tid.toNat? with
+    | some i =>
+      let σ1 := wakeWaiter (advance (tstep d.sys i) 4) 8
+      ({ d with sys := σ1 }, sLine σ1)
+    | none => (d, "bad-op")
+  | ["sdump"] => (d, line (kernelStr d.sys.K) (trackerStr d.sys.t))
   | _ => (d, "bad-op")
 
 def main : IO Unit := lineLoopS (default : DState) handle
